@@ -67,10 +67,26 @@ def wire_check(prop, tier, seed, replay=None):
         env = dict(VERIF_TABLE=table, VERIF_SEED=str(seed), VERIF_VARIANTS='4',
                    VERIF_RANDOM='150' if tier == 'quick' else '30000', VERIF_BATCHES='120' if tier == 'quick' else '25000',
                    VERIF_PATLEN='4' if tier == 'quick' else '6')
+        cviol, cinfo = [], {}
+        if replay and 'scenario' in json.load(open(replay)):      # a history of the server family (see below)
+            from . import server_family as SF
+            cviol, cinfo = SF.contract_part(prop, tier, seed, work, json.load(open(replay))['scenario'])
+            C.write_evidence(prop, tier, seed, 'model_checking', dict(states=1, transitions=1, traces_validated_against_impl=1, evaluations=1, distinct_nontrivial=1, rule='replay of one recorded history', samples=['(replay)'], exhaustive=False, **cinfo), time.time() - t0, len(cviol))
+            for name, path, r in cviol:
+                print('VIOLATION property=%s replay=%s' % (prop, path))
+            return 1 if cviol else 0
         if replay:
             env['VERIF_REPLAY_INPUT'] = json.load(open(replay))['input']
         results, crashes = run_shards(binp, 'TestWire', work, C.NCPU, env)
         violations = [v for r in results for v in (r.get('violations') or []) if v['property'] == prop]
+        if prop == 'C02' and not replay:
+            # the same verdicts inside the histories of the server family: ServerContract's guards tagged C02
+            from . import server_family as SF
+            cviol, cinfo = SF.contract_part(prop, tier, seed, work)
+            cinfo['contract_violations'] = len(cviol)
+            for name, path, r in cviol:
+                print('VIOLATION property=%s replay=%s' % (prop, path))
+                print('  scenario %s rejected at event %d: %s' % (name, r['at'], json.dumps(r['event'])[:300]))
         for c in crashes:
             if prop == 'C02' and library_crash(c['log']):
                 violations.append(dict(property='C02', input='(see log)', push=False, why='harness worker died: the server crashed the process: ' + c['log'][-600:]))
@@ -80,12 +96,13 @@ def wire_check(prop, tier, seed, replay=None):
         for r in results:
             for k, n in (r.get('classes') or {}).items(): classes[k] = classes.get(k, 0) + n
         samples = [s for r in results for s in (r.get('samples') or [])][:6]
-        return finish(prop, tier, seed, t0, 'model_checking', ncells, results, crashes, violations,
+        rcode = finish(prop, tier, seed, t0, 'model_checking', ncells, results, crashes, violations,
                       rule='every cell of the single-member product Ver x Id x Method x Params x Extra (%d cells, evaluated by TLC from spec/Wire.tla) concretised into byte strings '
                            '(key order / whitespace variants), sent to a real Server with AllowPush off and on and given to ParseRequests; plus random batches of 2-3 members, every composition of member verdict classes of length 2..4 (thorough: as far as 40000 patterns go), '
                            'envelope cases and seeded mutations; distinct_nontrivial = abstract cells replayed' % ncells,
-                      samples=samples, extra=dict(verdict_classes=classes, class_patterns=max(r.get('patterns', 0) for r in results) if results else 0, aborted_shards=sum(1 for r in results if r.get('aborted')), batches=sum(r.get('batches', 0) for r in results), mutated=sum(r.get('random', 0) for r in results)),
+                      samples=samples, extra=dict(verdict_classes=classes, class_patterns=max(r.get('patterns', 0) for r in results) if results else 0, aborted_shards=sum(1 for r in results if r.get('aborted')), batches=sum(r.get('batches', 0) for r in results), mutated=sum(r.get('random', 0) for r in results), **cinfo),
                       trusted=['concretisation templates and the generic-JSON response validator in harness/wirefam', 'TLC evaluation of spec/Wire.tla'])
+        return 1 if (rcode or cviol) else 0
     finally:
         shutil.rmtree(work, ignore_errors=True)
 
